@@ -112,7 +112,8 @@ def make_ids(rng, kind, n):
 
 def case_lines(case):
     head = f"case {case['label']} P {' '.join(case['pids'])} T {' '.join(case['tags'])}"
-    return [head] + [' '.join(op) for op in case['ops']]
+    # `recreate p t` (load, unbundle, run the recreated process) is a `load p t` as far as the store is concerned
+    return [head] + [' '.join(['load'] + list(op[1:]) if op[0] == 'recreate' else op) for op in case['ops']]
 
 
 def universe(case):
@@ -200,6 +201,18 @@ class Runner:
             return st
         if name == 'load':
             return self.load(P, op[1], op[2])
+        if name == 'recreate':
+            res = self.load(P, op[1], op[2])
+            if res.startswith('ok'):
+                # a second live process, recreated from the checkpoint, moves on: the stored snapshot must not follow it
+                import plumpy
+                try:
+                    q = P.load_checkpoint(val(op[1]), val(op[2])).unbundle(plumpy.LoadSaveContext(loop=self.loop))
+                    for _ in range(2):
+                        self.loop.run_until_complete(q.step())
+                except Exception as e:  # noqa
+                    self.notes.append(f'recreated process of {op[1]} failed: {type(e).__name__}')
+            return res
         if name == 'list':
             return self.listing(*self.call(P.get_checkpoints))
         if name == 'listp':
@@ -227,7 +240,7 @@ class Runner:
         if name == 'save':
             self.store[(op[1], op[2])] = self.n[op[1]]
             return 'ok'
-        if name == 'load':
+        if name in ('load', 'recreate'):
             k = (op[1], op[2])
             return f'ok:{self.store[k]}' if k in self.store else 'missing'
         if name in ('list', 'listp'):
@@ -263,6 +276,8 @@ class Runner:
             return 'load-not-latest-snapshot' if loads.get(k) != str(self.n[op[1]]) else 'save-touches-other-key'
         if name == 'load':
             return 'load-not-latest-snapshot' if res != exp_res else 'load-not-pure'
+        if name == 'recreate':
+            return 'load-not-latest-snapshot' if res != exp_res else 'snapshot-not-immutable'
         if name in ('list', 'listp'):
             return 'list-not-exact' if res != exp_res else 'load-not-pure'
         if name == 'del':
@@ -349,6 +364,7 @@ def alphabet(pids, tags, mutators_only=False):
     ops += [['delp', p] for p in pids] + [['progress', p] for p in pids]
     if not mutators_only:
         ops += [['load', p, t] for p in pids for t in ts] + [['listp', p] for p in pids] + [['list']]
+        ops += [['recreate', p, '-'] for p in pids]
     return ops
 
 
@@ -373,7 +389,7 @@ def exhaustive_cases(ctx):
     return cases, dict(full_alphabet_len=full_len, mutators_len=mut_len, longest_start_with_save=not ctx.thorough)
 
 
-WEIGHTS = [('save', 30), ('load', 14), ('list', 4), ('listp', 5), ('del', 16), ('delp', 7), ('progress', 24)]
+WEIGHTS = [('save', 30), ('load', 14), ('list', 4), ('listp', 5), ('del', 16), ('delp', 7), ('progress', 24), ('recreate', 10)]
 
 
 def random_ops(rng, pids, tags, n):
@@ -384,7 +400,7 @@ def random_ops(rng, pids, tags, n):
     for _ in range(n):
         name = rng.choices(names, weights)[0]
         p = rng.choice(pids)
-        if name in ('save', 'load', 'del'):
+        if name in ('save', 'load', 'del', 'recreate'):
             ops.append([name, p, rng.choice(ts)])
         elif name == 'list':
             ops.append([name])
